@@ -37,6 +37,21 @@ class Violation:
     def klass(self):
         return (self.prop, self.inv, self.op)
 
+    def category(self) -> str:
+        """coarse kind of failure inside a class: the exception type, else the leading words of the message.
+        Minimisation keeps it fixed so that shrinking cannot slide from one defect to another of the same class."""
+        import re
+
+        m = re.search(r"raised (\w+)", self.msg)
+        if m:
+            return "raised " + m.group(1)
+        head = re.sub(r"\[[^\]]*\]\s*", "", self.msg)  # drop finding tags
+        head = re.split(r"[:;(]", head, 1)[0]
+        return re.sub(r"[0-9]+", "#", head).strip()[:40]
+
+    def klass4(self):
+        return (self.prop, self.inv, self.op, self.category())
+
     def to_json(self):
         return dict(property=self.prop, invariant=self.inv, op=self.op, step=self.step, message=self.msg[:2000])
 
